@@ -39,16 +39,41 @@ ASSUMPTIONS = [
 PREEMPT_CHOICES = [0, 0, 0, 0, 0, 0, 0, 0, (0.002, 0.3), 0.003, 0.02, 0.1]
 
 
-def simulate(spec, cap, buf, chooser, step_cap, preempt=None):
+OUT2 = storage.PREFIX + 'out2.sgz'
+
+
+def simulate(spec, cap, buf, chooser, step_cap, preempt=None, second=None):
+    """second: another logical input converted right afterwards in the same process (to OUT2): whatever the first
+    conversion leaves behind - threads, module-level state - is there when the second one runs."""
     fs = storage.SimFS(bufsize=buf)
     fn = workloads.converter_fn(spec, OUT)
+    if second is not None:
+        fn1, fn2 = fn, workloads.converter_fn(second, OUT2)
+
+        def fn():
+            if spec.get('fail_from') is not None:
+                try:
+                    fn1()             # its source fails half way: the conversion is expected to raise
+                except core.SimAbort:
+                    raise
+                except core.HarnessError:
+                    raise
+                except Exception:
+                    pass
+            else:
+                fn1()
+            fn2()
     if spec['route'] == 'numpy':
         qcap, mem = cap, 64 << 30
     else:
         qcap, mem = None, workloads.mem_for_cap(spec, cap)
+        if second is not None and second['route'] != 'numpy':
+            mem = max(mem, workloads.mem_for_cap(second, cap))
 
     def on_return(r):
         r.at_return = fs.image(OUT) if fs.exists(OUT) else None
+        if second is not None:
+            r.at_return = (r.at_return, fs.image(OUT2) if fs.exists(OUT2) else None)
     r = env.run_sim(fn, fs, chooser, step_cap=step_cap, mem_total=mem, queue_cap=qcap, on_return=on_return,
                     preempt=tuple(preempt) if preempt else None)
     return fs, r
@@ -56,7 +81,7 @@ def simulate(spec, cap, buf, chooser, step_cap, preempt=None):
 
 def main_stream(fs):
     """Bytes written through 'wb' handles in API order + whether every write was an append."""
-    total = 0
+    total = {}
     parts = []
     append_only = True
     nwrites = 0
@@ -65,13 +90,49 @@ def main_stream(fs):
             continue
         if op == 'write':
             nwrites += 1
-            if off != total:
+            if off != total.get(hid, 0):
                 append_only = False
             parts.append(data)
-            total += ln
+            total[hid] = total.get(hid, 0) + ln
         elif op == 'seek':
             append_only = False
     return b''.join(parts), append_only, nwrites
+
+
+def readback_problem(image):
+    """The structural half of C16's statement, checked on the sequential reference image (every other run is compared
+    with it byte for byte): header first, then all the data blocks the header states, then all the footer arrays it
+    states - nothing missing, and the library's own reader reads samples and header arrays back without complaint.
+    Returns a description or None."""
+    from model import layout as lmodel
+    from . import readers
+    try:
+        L = lmodel.Layout(image[:8192])
+    except Exception as e:
+        return f'header does not parse ({type(e).__name__})'
+    want = L.data_end + L.n_arrays * L.hdr_stride
+    if len(image) < want:
+        # (longer is not judged: the NumPy converter writes caller-supplied header arrays in their own integer
+        # width, which is C03 / C04's business)
+        return (f'file is {len(image)} bytes long; its own header states {L.n_header_blocks} header blocks + '
+                f'{L.data_blocks} data blocks + {L.n_arrays} footer arrays of {L.hdr_stride} bytes = {want}')
+    fs = storage.SimFS()
+    fs.add_file(readers.FPATH, image)
+    out = {}
+
+    def fn():
+        from seismic_zfp.read import SgzReader
+        with SgzReader(readers.FPATH) as rd:
+            if rd.is_2d:
+                rd.read_subplane(0, rd.tracecount, 0, rd.n_samples)
+            else:
+                rd.read_volume()
+            rd.read_variant_headers()
+    r = env.run_sim(fn, fs, core.SeqChooser(), step_cap=10 ** 7)
+    readers.clear_caches()
+    if r.status != 'ok':
+        return f'the library\'s reader cannot read the file back: {r.status} {type(r.exc).__name__}: {str(r.exc)[:100]}'
+    return None
 
 
 def reference(spec):
@@ -86,13 +147,19 @@ def reference(spec):
     if r.status != 'ok':
         return None
     stream, append_only, _ = main_stream(fs)
+    bad = readback_problem(fs.image(OUT))
+    if bad:
+        return {'failed': {'spec': {k: v for k, v in spec.items() if k != 'src'}, 'cap': 16, 'buf': 4096, 'policy': 'seq',
+                           'preempt': None, 'trace': list(r.sched.trace), 'signature': 'oracle5:structure',
+                           'what': 'output of the strictly sequential run: ' + bad,
+                           'events': compact_trace(r.sched.events, 400)}}
     return {'image': fs.image(OUT), 'stream': stream, 'steps': r.sched.steps,
             'trace_digest': r.sched.trace_digest(), 'append_only': append_only,
             'items': sum(1 for e in r.sched.events if e[2] == 'q.put' and e[3] == ('q-1',))}
 
 
-def judge(spec, ref, fs, r):
-    """Returns (signature or None, description)."""
+def judge(spec, ref, fs, r, ref2=None):
+    """Returns (signature or None, description).  ref2: reference of the second conversion of a two-conversion run."""
     if r.status == 'deadlock':
         parked = [f'{t.name}@{t.pending}' for t in r.sched.threads if t.state != 'done']
         return 'oracle1:deadlock', 'no thread runnable before run() returned: ' + ' '.join(parked)
@@ -101,20 +168,36 @@ def judge(spec, ref, fs, r):
     if r.status == 'raised':
         return f'oracle2:raised:{type(r.exc).__name__}', f'run() raised {type(r.exc).__name__}: {str(r.exc)[:120]}'
     img = r.at_return
-    if img != ref['image']:
-        n = min(len(img), len(ref['image']))
-        first = next((i for i in range(n) if img[i] != ref['image'][i]), n)
-        return 'oracle2:bytes', (f'file at return differs from sequential reference: len {len(img)} vs '
-                                 f'{len(ref["image"])}, first difference at byte {first}')
+    img2 = None
+    if ref2 is not None:
+        img, img2 = img
+    first_failed = spec.get('fail_from') is not None
+    for which, im, rf in (('', img, None if first_failed else ref), (' (second conversion in the same process)', img2, ref2)):
+        if rf is None:
+            continue
+        if im is None:
+            return 'oracle2:bytes', 'no output file when run() returned' + which
+        if im != rf['image']:
+            n = min(len(im), len(rf['image']))
+            first = next((i for i in range(n) if im[i] != rf['image'][i]), n)
+            return 'oracle2:bytes', (f'file at return differs from sequential reference: len {len(im)} vs '
+                                     f'{len(rf["image"])}, first difference at byte {first}' + which)
     late = [e for e in fs.apilog if e[0] > r.seq_at_return and e[4] in ('write', 'flush', 'seek', 'truncate', 'write-closed', 'flush-closed')]
     late_os = [e for e in fs.oslog if e[0] > r.seq_at_return]
-    if late or late_os or fs.image(OUT) != ref['image']:
+    if first_failed:
+        # what the threads of the aborted conversion still try on *its* (closed) file is not the second call's doing
+        late = [e for e in late if e[1] != OUT]
+        late_os = [e for e in late_os if e[1] != OUT]
+    if late or late_os or (not first_failed and fs.image(OUT) != ref['image']) or \
+            (ref2 is not None and fs.image(OUT2) != ref2['image']):
         what = [(e[4], e[5], e[6], e[8]) for e in late][:3] + [('os', e[3], e[4], len(e[5]), e[6]) for e in late_os][:3]
         return 'oracle4:late_write', f'file touched after run() returned: {what}'
+    if first_failed:
+        return None, ''
     stream, append_only, _ = main_stream(fs)
-    if ref['append_only'] and not append_only:
+    if ref['append_only'] and (ref2 is None or ref2['append_only']) and not append_only:
         return 'oracle3:not_append_only', 'main handle was not written strictly front to back'
-    if stream != ref['stream']:
+    if stream != ref['stream'] + (ref2['stream'] if ref2 is not None else b''):
         return 'oracle3:stream', 'byte stream on the main handle differs from the reference stream'
     return None, ''
 
@@ -145,6 +228,10 @@ def probes_of(spec, cap, r):
     p['route:' + spec['route']] = 1
     if spec.get('window'):
         p['windowed_conversion'] = 1
+    if isinstance(getattr(r, 'at_return', None), tuple):
+        p['two_conversions_in_one_process'] = 1
+        if spec.get('fail_from') is not None:
+            p['first_of_two_conversions_aborted_by_its_source'] = 1
     p[f'cap:{cap}'] = 1
     if s.uncaught:
         p['thread_died_with_exception'] = 1
@@ -199,6 +286,11 @@ def build_pool(seed, n, scratch, gate=True):
     while len(pool) < n and idx < 4 * n:
         route = forced[idx] if idx < len(forced) else None
         spec = workloads.gen_spec(rng, idx, route=route)
+        if idx == len(forced):
+            # one large input: each of its two plane sets is 6.5 MiB of samples, 3.3 MiB compressed (code that
+            # treats large blocks differently is not met by the small cubes)
+            spec = {'id': idx, 'route': 'numpy', 'data_seed': 77, 'shape': [8, 400, 1024], 'bits': 16,
+                    'blockshape': [4, 4, -1]}
         idx += 1
         try:
             workloads.materialise(spec, scratch)
@@ -235,14 +327,25 @@ def one_run(ctx, run):
         preempt = [pre_p[0], f'{seed}:{run}', pre_p[1]]
     else:
         preempt = [pre_p, f'{seed}:{run}'] if pre_p else None
-    chooser = core.make_chooser(policy, core.stream(seed, run, 'schedule'), est_steps=ref['steps'])
-    step_cap = 10 * ref['steps'] + 400
-    fs, r = simulate(spec, cap, buf, chooser, step_cap, preempt)
-    sig, what = judge(spec, ref, fs, r)
+    spec2 = ref2 = None
+    if wl.random() < 0.1:
+        # two conversions one after the other in one process
+        spec2, ref2 = pool[wl.randrange(len(pool))]
+        full = workloads.resolve_blockshape(spec['bits'], spec['blockshape'])
+        if spec['route'] == 'numpy' and spec['shape'][0] > full[0] and wl.random() < 0.4:
+            # the first conversion is aborted by its source failing from the second plane set on; the second,
+            # healthy one must come out as if nothing had happened before
+            spec = dict(spec, fail_from=full[0] * wl.randint(1, (spec['shape'][0] - 1) // full[0]))
+    steps = ref['steps'] + (ref2['steps'] if ref2 else 0)
+    chooser = core.make_chooser(policy, core.stream(seed, run, 'schedule'), est_steps=steps)
+    step_cap = 10 * steps + 400
+    fs, r = simulate(spec, cap, buf, chooser, step_cap, preempt, second=spec2)
+    sig, what = judge(spec, ref, fs, r, ref2)
     s = r.sched
     rec = {
-        'run': run, 'li': spec['id'], 'cap': cap, 'buf': buf, 'policy': policy, 'status': r.status,
-        'steps': s.steps, 'td': s.trace_digest(), 'ed': s.digest(), 'differs': s.trace_digest() != ref['trace_digest'],
+        'run': run, 'li': spec['id'] if spec2 is None else (spec['id'], spec2['id']), 'cap': cap, 'buf': buf, 'policy': policy, 'status': r.status,
+        'steps': s.steps, 'td': s.trace_digest(), 'ed': s.digest(),
+        'differs': spec2 is not None or s.trace_digest() != ref['trace_digest'],
         'probes': probes_of(spec, cap, r), 'sig': sig, 'multi': sum(1 for k in s.nrunnable if k > 1),
         'pre': s.counters.get('preemptions', 0),
         'simtime': s.clock,
@@ -251,6 +354,7 @@ def one_run(ctx, run):
         rec['sample'] = compact_trace(s.events)
     if sig:
         rec['violation'] = {'spec': {k: v for k, v in spec.items() if k != 'src'}, 'cap': cap, 'buf': buf,
+                            'second': ({k: v for k, v in spec2.items() if k != 'src'} if spec2 else None),
                             'policy': policy, 'preempt': preempt, 'trace': list(s.trace), 'signature': sig, 'what': what,
                             'events': compact_trace(s.events, 400)}
     return rec
@@ -264,15 +368,30 @@ def replay_doc(doc, scratch, ref=None):
     spec = dict(doc['spec'])
     workloads.materialise(spec, scratch)
     if ref is None:
-        ref = reference(spec)
+        ref = reference({k: v for k, v in spec.items() if k != 'fail_from'})
         if ref is None:
             raise common.HarnessFailure('reference run of the replayed input failed')
+    if 'failed' in ref and ref['failed']['signature'] == 'oracle5:structure':
+        class _R:            # the finding is about the reference run itself
+            pass
+        r = _R()
+        r.sched = _R()
+        r.sched.events = []
+        return ref['failed']['signature'], ref['failed']['what'], r, ref
     chooser = core.ReplayChooser(doc['trace'])
     steps = ref.get('steps', 10000)
-    fs, r = simulate(spec, doc['cap'], doc['buf'], chooser, 10 * steps + 400, doc.get('preempt'))
+    spec2 = ref2 = None
+    if doc.get('second'):
+        spec2 = dict(doc['second'])
+        workloads.materialise(spec2, scratch)
+        ref2 = reference(spec2)
+        if ref2 is None or 'image' not in ref2:
+            raise common.HarnessFailure('reference run of the second replayed input failed')
+        steps += ref2['steps']
+    fs, r = simulate(spec, doc['cap'], doc['buf'], chooser, 10 * steps + 400, doc.get('preempt'), second=spec2)
     if 'image' not in ref and r.status == 'ok':
         return None, '', r, ref           # recorded against a reference run that did not terminate
-    sig, what = judge(spec, ref, fs, r)
+    sig, what = judge(spec, ref, fs, r, ref2)
     if doc.get('policy') == 'seq' and sig:
         what += ' (under the strictly sequential schedule)'
     return sig, what, r, ref
@@ -281,7 +400,7 @@ def replay_doc(doc, scratch, ref=None):
 def minimise(doc, scratch):
     spec = dict(doc['spec'])
     workloads.materialise(spec, scratch)
-    ref = reference(spec)
+    ref = reference({k: v for k, v in spec.items() if k != 'fail_from'})
     want = doc['signature']
     # express the trace as deviations from the default (sequential) choice: None = default
     def test(trace):
@@ -410,7 +529,8 @@ def _main(tier, seed, scratch, t0):
     expected = ['producer_blocked_on_full_queue', 'compressor_blocked_on_full_writing_queue',
                 'three_threads_runnable_at_once', 'two_items_in_flight_in_both_queues',
                 'writer_first_ran_after_last_put', 'compressor_first_ran_after_last_put', 'per_block_mode',
-                'line_level_preemption'] + \
+                'line_level_preemption', 'two_conversions_in_one_process',
+                'first_of_two_conversions_aborted_by_its_source'] + \
                ['route:' + r for r in workloads.ROUTES] + [f'cap:{c}' for c in workloads.CAPS]
     unreached = [p for p in expected if not probes.get(p)]
 
@@ -476,6 +596,8 @@ def _main(tier, seed, scratch, t0):
 
 
 def pool_desc(pool, li):
+    if isinstance(li, (tuple, list)):
+        return [pool_desc(pool, x) for x in li]
     for spec, _ in pool:
         if spec['id'] == li:
             return {k: v for k, v in spec.items() if k not in ('src', 'drop', 'id', 'data_seed')}
